@@ -49,18 +49,15 @@ def t2(ctx):
     alloc = canon(e["args"][1])
     ok_a = tag(alloc) == "field" and alloc[2] == "allocated"
     alts = phi_alternatives(ctx, ev, res, e["args"][2])
-    ok = len(alts) == 2
+    ok = len(alts) >= 1
     det = []
+    want = ("max", *sorted([SIZE, alloc], key=repr))
     for v, gs in alts:
-        fs = set(canon(f) for f in implied_facts(gs or []))
+        fs = set(canon(f) for f in implied_facts(gs or [])) | set(canon(f) for f in ctx.facts_of(ev, e))
         o = Order(fs)
         v = canon(v)
-        if v == SIZE:
-            good = o.le(add(alloc, const(1)), SIZE)
-        elif v == alloc:
-            good = o.le(SIZE, alloc)
-        else:
-            good = False
+        # every alternative equals max(n, allocated) under the guards of its path, however it is spelled (if / max / cmp::max)
+        good = o.eq_cases(v, want)
         det.append((short(v, 40), good))
         ok = ok and good
     yield Ob(key_of("C18-T2", b.path, "floor"), ok and ok_a, "size' = n if allocated < n else allocated: %s" % det, ctx.loc(e))
